@@ -118,7 +118,7 @@ int Interpret :: interpPipe ( ) {
     if ( bts_rd == 0 ) { break ; }
     if ( bts_rd < 0 ) {
       char const * err_str = strerror ( errno ) ;
-      notify_formatted ( true , err_str ) ;
+      notify_formatted ( true , @OPT_FMT@ err_str ) ;
       break ;
     }
     rd_head += bts_rd ;
@@ -154,6 +154,7 @@ int Interpret :: interpPipe ( ) {
       }
     }
   }
+  @OPT_PENDING@
   free ( buf ) ;
   return 0 ;
 }
@@ -172,7 +173,32 @@ def match_skeleton(toks):
         if s.startswith("@") and s.endswith("@"):
             name = s[1:-1]
             nxt = sk[k + 1:k + 7]
-            if name == "INIT_BUFSZ":
+            if name == "OPT_FMT":
+                # optional:  "%s" ,   (message no longer used as a format)
+                if toks[i:i + 2] == ['"%s"', ","]:
+                    holes[name] = toks[i:i + 2]
+                    i += 2
+                else:
+                    holes[name] = []
+            elif name == "OPT_PENDING":
+                # optional statement after the reader loop reporting input that ends inside a command:
+                #   if ( <condition over done / par / flags> ) { notify_formatted ( true , "<text>" ) ; }
+                if toks[i] == "if":
+                    j = i
+                    while j < len(toks) and toks[j] != "}":
+                        j += 1
+                    st = toks[i:j + 1]
+                    allowed = {"if", "(", ")", "{", "}", "!", "&&", "||", ">", "<", "==", "!=", "0", "done", "par", "notify_formatted", "true", ",", ";"}
+                    for t in st:
+                        if t not in allowed and not t.startswith('"') and not re.fullmatch(r"in[A-Z][A-Za-z]*", t):
+                            raise TranslatorError("statement after the reader loop not understood: %s" % " ".join(st))
+                    if "notify_formatted" not in st:
+                        raise TranslatorError("statement after the reader loop not understood: %s" % " ".join(st))
+                    holes[name] = st
+                    i = j + 1
+                else:
+                    holes[name] = []
+            elif name == "INIT_BUFSZ":
                 holes[name] = [toks[i]]
                 i += 1
             elif name == "BOOLDECLS":
